@@ -2,7 +2,7 @@
    Full-strength statement: C11 (see DESIGN.md section 7) (Cluster/Statements.v). Proved so far: the theorems below; what is
    not yet proved is decided on every run by the lock-step co-simulation (model = implementation on every
    explored schedule) together with the monitors run on the implementation's own observations. *)
-From RaftV Require Import Cluster.Statements Proofs.RVSpec Proofs.AESpec.
+From RaftV Require Import Cluster.Statements Proofs.RVSpec Proofs.AESpec Proofs.SnapSpec.
 Open Scope N_scope.
 
 (* becomeFollower (every term change, every step-down) never touches the commit index, the applied index, the
@@ -10,3 +10,30 @@ Open Scope N_scope.
 Theorem C11_step_down_frame : forall now n l t, vol (become_follower now n l t) = vol n.
 Proof. exact vol_become_follower. Qed.
 Print Assumptions C11_step_down_frame.
+
+(* InstallSnapshot, for every node state and every request: a request of a stale term, or one whose last included
+   index is covered by the node's own snapshot or by what it has applied, changes neither the log nor the commit
+   index, the applied index, the snapshot boundary, the stored snapshots, the state machine, its apply history or
+   the configurations: no snapshot older than what the node has applied is ever installed. *)
+Theorem C11_nothing_new_changes_nothing : forall now n q,
+  is_term q < n_term n \/ is_lii q <= n_lii n \/ is_lii q <= n_applied n ->
+  let n' := is_node (h_install_snapshot now n q) in
+  vol n' = vol n /\ n_log n' = n_log n.
+Proof. exact is_nothing_new_unchanged. Qed.
+Print Assumptions C11_nothing_new_changes_nothing.
+
+(* InstallSnapshot, every state, every request (stale, duplicated, reordered, any offset): the applied index and
+   the snapshot boundary never move backwards. *)
+Theorem C11_applied_and_boundary_monotone : forall now n q,
+  let n' := is_node (h_install_snapshot now n q) in
+  n_applied n <= n_applied n' /\ n_lii n <= n_lii n'.
+Proof. exact is_monotone. Qed.
+Print Assumptions C11_applied_and_boundary_monotone.
+
+(* the premises of the first theorem are met by a node that has applied index 7 and is offered snapshot 5 *)
+Example C11_nonvacuous : exists n q, is_lii q <= n_applied n /\ n_role n = Follower.
+Proof.
+  exists ((mk_node 1 4 2) <| n_role := Follower |> <| n_applied := 7 |>),
+         {| is_leader := 2; is_term := 1; is_lii := 5; is_lit := 1; is_conf := config0; is_offset := 0; is_bytes := []; is_done := true |}.
+  split; [cbn; lia|reflexivity].
+Qed.
